@@ -97,6 +97,7 @@ structure H where
   logLen : Nat
   metaEpoch : Nat
   fileEpoch : Nat
+  virtualIo : Bool := true   -- psf->virtual_io (every handle of the C17 grid is opened through sf_open_virtual)
   deriving DecidableEq, Repr
 
 /-- process-wide facts -/
@@ -414,6 +415,8 @@ def withHandle (h : H) (cmd : Int) (size : Nat) (data : Option Mem) : Res :=
       { reads := [(0, szDither)], ret := .exact 0, h' := some { h with metaEpoch := h.metaEpoch + 1 } }
   | .k1080 =>
     if ¬ writable h then { ret := .exact 1, err := some 0, h' := sh }
+    -- since 7f90196: SF_VIRTUAL_IO has no truncate callback; refused before datasize / data are looked at and before anything changes
+    else if h.virtualIo then { ret := .exact 1, err := some 0, h' := sh }
     else if size ≠ szCount then { ret := .exact 1, err := some 0, h' := sh }
     else match data with
       | none => false30
